@@ -83,7 +83,32 @@ func fullRangeDecimal(r *rng.R, maxExpForF bool) dec.D {
 func textRoundTripCase(t *mon.T) {
 	r := t.Rng
 	quick := t.R.Quick()
-	d := fullRangeDecimal(r, quick || r.Chance(9, 10))
+	textRoundTrip(t, fullRangeDecimal(r, quick || r.Chance(9, 10)))
+}
+
+// giantTextCase: coefficients with more digits than the exponent range is
+// wide (100002..200001), whose exponent keeps the value inside the limits.
+// Their scientific form has a fraction of more than 100000 digits.
+func giantTextCase(t *mon.T) {
+	r := t.Rng
+	n := r.Range(100002, 200001)
+	if r.Chance(1, 3) {
+		n = []int64{100002, 100003, 131072, 200001}[r.Intn(4)]
+	}
+	cf, _ := new(big.Int).SetString(gen.Digits(r, n), 10)
+	e := r.Range(gen.MinExp, gen.MaxExp-(n-1))
+	if r.Chance(1, 3) {
+		e = []int64{gen.MinExp, gen.MaxExp - (n - 1), -(n - 1), -n / 2}[r.Intn(4)]
+	}
+	if e < gen.MinExp {
+		e = gen.MinExp
+	}
+	textRoundTrip(t, dec.D{Form: dec.Finite, Neg: r.Bool(), C: cf, E: e})
+	t.Count("text/giant-coefficient")
+}
+
+func textRoundTrip(t *mon.T, d dec.D) {
+	r := t.Rng
 	a := br.ToApd(d)
 	t.Count("form/" + d.Form.String())
 	if d.Form != dec.Finite || d.E != 0 {
@@ -348,15 +373,17 @@ func floatRoundTripCase(t *mon.T) {
 }
 
 func runC13(r *mon.Run) {
-	r.Rule = "cases: Decimals of all forms and signs, coefficient lengths 1..60 and ~200/~2000 digits, exponents over the whole +/-100000 range with " +
+	r.Rule = "cases: Decimals of all forms and signs, coefficient lengths 1..60 and ~200/~2000 digits (and a stratum of 100002..200001 digits whose exponent keeps the value within the limits), exponents over the whole +/-100000 range with " +
 		"dense sampling at the switch-over points (adjusted exponent -5..-8, exponent -2..3, zeros with exponent -1997..-2003); each is encoded " +
 		"by String, Text G/g/E/e, MarshalText, Value and the %v %s %G %E %e %g verbs and parsed back (field-identical), by Text('f')/%f/%F " +
 		"(numerically equal, same sign), and through Decompose/Compose with buffers of every capacity class into clean and dirty destinations; " +
 		"float64: random bit patterns, subnormals, powers of two, decimal neighbours, +/-0, +/-Inf, NaN through SetFloat64/Float64, with an " +
 		"independent big.Rat nearest-float oracle for exactness and shortest-ness. distinct_nontrivial = distinct values with exponent != 0 or non-finite form, and distinct finite floats."
-	r.Assumptions = []string{"special values are generated in their canonical shape (zero coefficient and exponent), which is what the parser and the arithmetic produce",
+	r.Assumptions = []string{"NaNs are generated in their canonical shape; infinities also in the shape an overflow leaves behind (their coefficient and exponent carry no meaning and are not compared)",
 		"Text('f') is exercised for |exponent| <= 5000 (longer outputs are legitimate but quadratic in test time)", "big.Rat.Float64 is exactly rounded"}
 	r.Parallel("text", r.N(120000, 8000000), textRoundTripCase)
+	r.Parallel("text-giant", r.N(24, 600), giantTextCase)
+	r.Require("text/giant-coefficient", 20)
 	r.Parallel("compose", r.N(80000, 4000000), composeCase)
 	r.Parallel("float", r.N(150000, 10000000), floatRoundTripCase)
 	for _, cl := range []string{"form/Finite", "form/Infinite", "form/NaN", "form/sNaN", "enc/String", "enc/%v", "enc/f", "compose/Finite", "compose/sNaN", "float/set", "float/shortest-checked"} {
